@@ -1481,12 +1481,17 @@ def run(ctx):
             ctx.nontrivial(["hist", spec, hist])
         if obs != exp or not unchanged:
             hist_bad.append(idx)
-            if len([1 for v in ctx.violations]) - nviol0 < 5:
+            n_ans = sum(1 for v in ctx.violations[nviol0:] if "(and the container" not in v[0])
+            n_fp = len(ctx.violations) - nviol0 - n_ans
+            if (obs != exp and n_ans < 3) or (obs == exp and n_fp < 2):
                 # shrink the history
-                def fails(sub, spec=spec):
+                answers_wrong = obs != exp
+
+                def fails(sub, spec=spec, answers_wrong=answers_wrong):
+                    # shrink towards the same kind of failure (wrong answers before "container changed")
                     try:
                         o2, u2 = run_history(spec, sub)
-                        return o2 != oracle_history(spec["labels"], sub) or not u2
+                        return o2 != oracle_history(spec["labels"], sub) if answers_wrong else not u2
                     except Exception:
                         return False
                 small = core.ddmin(hist, fails) if fails(hist) else hist
